@@ -333,8 +333,9 @@ class UX(tt.Exec2):
         sub = UX(self.tree, self.roles, self.toms_fn, let_calls=False)
         lst = tt.St(env={k: v for k, v in st.env.items() if isinstance(v, tt.Ext)})
         lst.env['level'] = tt.T('level', NUM)
-        for v, ty in zip(lvars, tys):
-            lst.env[v] = tt.T(v, ty)
+        cnames = [v if v == 'cache' else 's%d' % i for i, v in enumerate(lvars)]        # positional names: renaming a python local changes nothing
+        for v, cn, ty in zip(lvars, cnames, tys):
+            lst.env[v] = tt.T(cn, ty)
         c = sub.test(s.test, lst.copy())
         if sub.pending or not (isinstance(c, tt.T) and c.ty == tt.BOOL):
             raise tt.TB('while loop (line %d): test' % s.lineno)
@@ -351,9 +352,9 @@ class UX(tt.Exec2):
             new.append(nv.s)
         tup = lambda xs: xs[0] if len(xs) == 1 else '(' + ', '.join(xs) + ')'
         rty = ' * '.join(tt.coqty(t) if ' ' not in tt.coqty(t) or tt.coqty(t).startswith('(') else tt.coqty(t) for t in tys)
-        sig = ' '.join('(%s : %s)' % (v, tt.coqty(t)) for v, t in zip(lvars, tys))
+        sig = ' '.join('(%s : %s)' % (v, tt.coqty(t)) for v, t in zip(cnames, tys))
         self.aux.append('Fixpoint %s %s (fuel : nat) (level : V N) %s {struct fuel} : option (%s) :=\n  match fuel with O => None | S fuel\' => if %s then %s N H fuel\' level %s else Some %s end.\n'
-                        % (name, SIG, sig, rty, c.s, name, ' '.join(new), tup(lvars)))
+                        % (name, SIG, sig, rty, c.s, name, ' '.join(new), tup(cnames)))
         var = self.fresh_var('w')
         call = '(%s N H fuel %s %s)' % (name, self.num(st.env.get('level'), s), ' '.join(st.env[v].s for v in lvars))
         # projections of the left-nested tuple
